@@ -453,7 +453,7 @@ Qed.
 Lemma jupdate_fixed : forall src d, (forall k v, In (k, v) src -> assoc_get teq k d = Some v) -> jupdate src d = d.
 Proof.
   induction src as [|[k0 v0] src IH]; cbn; intros d H; auto.
-  rewrite (aset_same teq teq_eq) by auto. apply IH. auto.
+  rewrite (aset_same teq) by auto. apply IH. auto.
 Qed.
 Lemma jupdate_idem : forall src d, NoDup (map fst src) -> jupdate src (jupdate src d) = jupdate src d.
 Proof. intros. apply jupdate_fixed. intros. apply jupdate_get_in; auto. Qed.
@@ -508,7 +508,7 @@ Lemma merge_stats_idem : forall m st m', NoDup (map fst st) -> merge_stats m st 
 Proof.
   intros m st m' ND H. destruct (merge_stats_spec _ _ _ ND H) as [E _].
   unfold merge_stats. rewrite E, jupdate_idem by auto. f_equal.
-  apply (aset_same teq teq_eq). exact E.
+  apply (aset_same teq). exact E.
 Qed.
 
 Lemma NoDup_file_keys : forall d i, NoDup (map fst (file_stat_list d i)).
@@ -579,7 +579,7 @@ Proof.
   - unfold jget. apply jupdate_get_in; cbn; auto.
   - unfold jget. apply jupdate_get_in; cbn; auto.
   - unfold jget. apply jupdate_get_in; cbn; auto.
-  - intros k K1 K2 K3. apply jupdate_get_notin. cbn. unfold skey in *. intros [F|[F|[F|[]]]]; congruence.
+  - intros k K1 K2 K3. apply jupdate_get_notin. cbn. intros [F|[F|[F|[]]]]; [apply K1|apply K2|apply K3]; rewrite <- F; reflexivity.
   - intros k. apply jupdate_keys_incl.
 Qed.
 (* and the update does happen whenever the existing 'stats' entry, if any, is a dict *)
@@ -591,4 +591,185 @@ Proof.
   intros f dels ins A H. rewrite file_stats_eq, A.
   destruct (merge_stats_total _ (file_stat_list dels ins) H) as [m' M]. rewrite M. cbn.
   rewrite (merge_stats_eq _ _ _ (NoDup_file_keys dels ins) M). reflexivity.
+Qed.
+
+(* ---- C13_change_sums / C13_tree_sums ---- *)
+(* the figure a section reports under [k] in its 'stats' (0 when there is no such figure) *)
+Definition stat_of (k : String.string) (m : list (text * json)) : Z :=
+  match jget "stats" m with
+  | Some (JObj kv) => match jget k kv with Some (JInt z) => z | Some (JBool b) => bool_Z b | _ => 0%Z end
+  | _ => 0%Z
+  end.
+Definition file_fig (k : String.string) (f : dfile) : Z := stat_of k (m_content (f_meta f)).
+Definition change_fig (k : String.string) (c : dchange) : Z := stat_of k (m_content (c_meta c)).
+Definition zsum (l : list Z) : Z := fold_right Z.add 0%Z l.
+
+Fixpoint sum_files (l : list dfile) (acc : Z * Z * Z) : res (Z * Z * Z) :=
+  match l with
+  | [] => Ok acc
+  | f :: t =>
+      let st := match jget "stats" (m_content (f_meta f)) with Some (JObj kv) => Ok kv | None => Ok [] | Some _ => Err EAttribute end in
+      do kv <- st;
+      do i <- jint_or 0 (jget "insertions" kv);
+      do d <- jint_or 0 (jget "deletions" kv);
+      do l' <- jint_or 0 (jget "lines changed" kv);
+      let '(ai, ad, al) := acc in sum_files t (ai + i, ad + d, al + l')%Z
+  end.
+Definition change_stat_list (nfiles : nat) (i d l : Z) : list (text * json) :=
+  [stat "deletions" d; stat "files" (Z.of_nat nfiles); stat "insertions" i; stat "lines changed" l].
+Definition with_change (c : dchange) (m : list (text * json)) (fs : list dfile) : dchange :=
+  {| c_opts := c_opts c; c_pre := c_pre c; c_meta := {| m_opts := m_opts (c_meta c); m_content := m |}; c_files := fs |}.
+
+Lemma change_stats_eq : forall c,
+  change_stats c =
+  do fs <- map_res file_stats (c_files c);
+  do sums <- sum_files fs (0, 0, 0)%Z;
+  let '(i, d, l) := sums in
+  do m <- merge_stats (m_content (c_meta c)) (change_stat_list (length fs) i d l);
+  Ok (with_change c m fs).
+Proof. reflexivity. Qed.
+
+Lemma jint_or_fig : forall k m z,
+  (do kv <- (match jget "stats" m with Some (JObj kv) => Ok kv | None => Ok [] | Some _ => Err EAttribute end);
+   jint_or 0 (jget k kv)) = Ok z -> z = stat_of k m.
+Proof.
+  intros k m z. unfold stat_of. destruct (jget "stats" m) as [[]|]; cbn; try discriminate.
+  - destruct (jget k kv) as [[]|]; cbn; try discriminate; intro H; injection H; auto.
+  - intro H; injection H; auto.
+Qed.
+
+Lemma sum_files_spec : forall l ai ad al i d c, sum_files l (ai, ad, al) = Ok (i, d, c) ->
+  i = (ai + zsum (map (file_fig "insertions") l))%Z /\
+  d = (ad + zsum (map (file_fig "deletions") l))%Z /\
+  c = (al + zsum (map (file_fig "lines changed") l))%Z.
+Proof.
+  induction l as [|f l IH]; intros ai ad al i d c H; cbn in H.
+  - injection H as <- <- <-. cbn. lia.
+  - destruct (match jget "stats" (m_content (f_meta f)) with Some (JObj kv) => Ok kv | None => Ok [] | Some _ => Err EAttribute end)
+      as [kv|] eqn:S; cbn in H; try discriminate.
+    inv_bind H. inv_bind H. inv_bind H.
+    apply IH in H. destruct H as (-> & -> & ->).
+    assert (F : forall k z, jint_or 0 (jget k kv) = Ok z -> z = file_fig k f).
+    { intros k z J. apply jint_or_fig. rewrite S. exact J. }
+    apply F in E, E0, E1. subst. unfold zsum. cbn [map fold_right]. lia.
+Qed.
+
+Lemma NoDup_change_keys : forall n i d l, NoDup (map fst (change_stat_list n i d l)).
+Proof. intros. cbn. repeat constructor; cbn; intro H; repeat destruct H as [H|H]; try discriminate H; auto. Qed.
+
+Theorem C13_change_sums : forall c c', change_stats c = Ok c' ->
+  Forall2 (fun f f' => file_stats f = Ok f') (c_files c) (c_files c') /\
+  exists st, jget "stats" (m_content (c_meta c')) = Some (JObj st) /\
+    jget "files" st = Some (JInt (Z.of_nat (length (c_files c')))) /\
+    length (c_files c') = length (c_files c) /\
+    jget "insertions" st = Some (JInt (zsum (map (file_fig "insertions") (c_files c')))) /\
+    jget "deletions" st = Some (JInt (zsum (map (file_fig "deletions") (c_files c')))) /\
+    jget "lines changed" st = Some (JInt (zsum (map (file_fig "lines changed") (c_files c')))).
+Proof.
+  intros c c' H. rewrite change_stats_eq in H.
+  inv_bind H. rename x into fs. inv_bind H. destruct x as [[i d] l]. inv_bind H. injection H as <-.
+  cbn [with_change c_files c_meta m_content].
+  split; [apply map_res_Forall2; auto|].
+  pose proof (NoDup_change_keys (length fs) i d l) as ND.
+  destruct (merge_stats_spec _ _ _ ND E1) as (S & _).
+  apply sum_files_spec in E0. destruct E0 as (-> & -> & ->).
+  eexists; split; [exact S|].
+  repeat split; try (unfold jget; apply jupdate_get_in; cbn; auto 10; fail).
+  eapply map_res_length; eauto.
+Qed.
+
+Fixpoint sum_changes (l : list dchange) (acc : Z * Z * Z * Z) : res (Z * Z * Z * Z) :=
+  match l with
+  | [] => Ok acc
+  | c :: r =>
+      do kv <- (match jget "stats" (m_content (c_meta c)) with Some (JObj kv) => Ok kv | Some _ => Err EType | None => Err EKey end);
+      let need k := match jget k kv with Some (JInt z) => Ok z | Some (JBool b) => Ok (bool_Z b) | Some _ => Err EType | None => Err EKey end in
+      do f <- need "files"; do i <- need "insertions"; do d <- need "deletions"; do l' <- need "lines changed";
+      let '(af, ai, ad, al) := acc in sum_changes r (af + f, ai + i, ad + d, al + l')%Z
+  end.
+Definition tree_stat_list (nchanges : nat) (f i d l : Z) : list (text * json) :=
+  [stat "changes" (Z.of_nat nchanges); stat "deletions" d; stat "files" f; stat "insertions" i; stat "lines changed" l].
+Definition with_tree_meta (t : dtree) (m : list (text * json)) (cs : list dchange) : dtree :=
+  {| d_opts := d_opts t; d_pre := d_pre t; d_meta := {| m_opts := m_opts (d_meta t); m_content := m |}; d_changes := cs |}.
+
+Lemma tree_stats_eq : forall t,
+  tree_stats t =
+  do cs <- map_res change_stats (d_changes t);
+  do sums <- sum_changes cs (0, 0, 0, 0)%Z;
+  let '(f, i, d, l) := sums in
+  do m <- merge_stats (m_content (d_meta t)) (tree_stat_list (length cs) f i d l);
+  Ok (with_tree_meta t m cs).
+Proof. reflexivity. Qed.
+
+Lemma sum_changes_spec : forall l af ai ad al f i d c, sum_changes l (af, ai, ad, al) = Ok (f, i, d, c) ->
+  f = (af + zsum (map (change_fig "files") l))%Z /\
+  i = (ai + zsum (map (change_fig "insertions") l))%Z /\
+  d = (ad + zsum (map (change_fig "deletions") l))%Z /\
+  c = (al + zsum (map (change_fig "lines changed") l))%Z.
+Proof.
+  induction l as [|x l IH]; intros af ai ad al f i d c H; cbn in H.
+  - injection H as <- <- <- <-. cbn. lia.
+  - destruct (jget "stats" (m_content (c_meta x))) as [[| | | | | |kv|]|] eqn:S; cbn in H; try discriminate.
+    assert (F : forall k z, match jget k kv with Some (JInt z) => Ok z | Some (JBool b) => Ok (bool_Z b) | Some _ => Err EType | None => Err EKey end = Ok z ->
+                            z = change_fig k x).
+    { intros k z J. unfold change_fig, stat_of. rewrite S. destruct (jget k kv) as [[]|]; try discriminate; injection J; auto. }
+    inv_bind H. inv_bind H. inv_bind H. inv_bind H.
+    apply IH in H. destruct H as (-> & -> & -> & ->).
+    apply F in E, E0, E1, E2. subst. unfold zsum. cbn [map fold_right]. lia.
+Qed.
+
+Lemma NoDup_tree_keys : forall n f i d l, NoDup (map fst (tree_stat_list n f i d l)).
+Proof. intros. cbn. repeat constructor; cbn; intro H; repeat destruct H as [H|H]; try discriminate H; auto. Qed.
+
+Theorem C13_tree_sums : forall t t', tree_stats t = Ok t' ->
+  Forall2 (fun c c' => change_stats c = Ok c') (d_changes t) (d_changes t') /\
+  exists st, jget "stats" (m_content (d_meta t')) = Some (JObj st) /\
+    jget "changes" st = Some (JInt (Z.of_nat (length (d_changes t')))) /\
+    length (d_changes t') = length (d_changes t) /\
+    jget "files" st = Some (JInt (zsum (map (change_fig "files") (d_changes t')))) /\
+    jget "insertions" st = Some (JInt (zsum (map (change_fig "insertions") (d_changes t')))) /\
+    jget "deletions" st = Some (JInt (zsum (map (change_fig "deletions") (d_changes t')))) /\
+    jget "lines changed" st = Some (JInt (zsum (map (change_fig "lines changed") (d_changes t')))).
+Proof.
+  intros t t' H. rewrite tree_stats_eq in H.
+  inv_bind H. rename x into cs. inv_bind H. destruct x as [[[f i] d] l]. inv_bind H. injection H as <-.
+  cbn [with_tree_meta d_changes d_meta m_content].
+  split; [apply map_res_Forall2; auto|].
+  pose proof (NoDup_tree_keys (length cs) f i d l) as ND.
+  destruct (merge_stats_spec _ _ _ ND E1) as (S & _).
+  apply sum_changes_spec in E0. destruct E0 as (-> & -> & -> & ->).
+  eexists; split; [exact S|].
+  repeat split; try (unfold jget; apply jupdate_get_in; cbn; auto 10; fail).
+  eapply map_res_length; eauto.
+Qed.
+
+(* the figures one level up really are the figures one level down: a change's figures after generation *)
+Lemma change_stats_figs : forall c c', change_stats c = Ok c' ->
+  change_fig "files" c' = Z.of_nat (length (c_files c')) /\
+  change_fig "insertions" c' = zsum (map (file_fig "insertions") (c_files c')) /\
+  change_fig "deletions" c' = zsum (map (file_fig "deletions") (c_files c')) /\
+  change_fig "lines changed" c' = zsum (map (file_fig "lines changed") (c_files c')).
+Proof.
+  intros c c' H. destruct (C13_change_sums _ _ H) as (_ & st & S & F & _ & I & D & L).
+  unfold change_fig, stat_of. rewrite S, F, I, D, L. auto.
+Qed.
+(* hence the totals of the whole file are the sums over all files of all changes *)
+Theorem C13_tree_totals : forall t t', tree_stats t = Ok t' ->
+  exists st, jget "stats" (m_content (d_meta t')) = Some (JObj st) /\
+    jget "changes" st = Some (JInt (Z.of_nat (length (d_changes t')))) /\
+    jget "files" st = Some (JInt (zsum (map (fun c => Z.of_nat (length (c_files c))) (d_changes t')))) /\
+    jget "insertions" st = Some (JInt (zsum (map (fun c => zsum (map (file_fig "insertions") (c_files c))) (d_changes t')))) /\
+    jget "deletions" st = Some (JInt (zsum (map (fun c => zsum (map (file_fig "deletions") (c_files c))) (d_changes t')))) /\
+    jget "lines changed" st = Some (JInt (zsum (map (fun c => zsum (map (file_fig "lines changed") (c_files c))) (d_changes t')))).
+Proof.
+  intros t t' H. destruct (C13_tree_sums _ _ H) as (F2 & st & S & C & _ & F & I & D & L).
+  exists st. repeat split; auto.
+  all: match goal with |- _ = Some (JInt (zsum (map ?g _))) =>
+         match goal with E : jget ?k st = Some (JInt (zsum (map ?h _))) |- jget ?k st = _ =>
+           rewrite E; do 3 f_equal;
+           assert (X : forall c', In c' (d_changes t') -> h c' = g c')
+         end end.
+  all: try (intros c' IN; destruct (proj1 (Forall2_forall_r_in F2) c' IN) as (c & _ & CS);
+            destruct (change_stats_figs _ _ CS) as (? & ? & ? & ?); auto).
+  all: apply map_ext_in; auto.
 Qed.
